@@ -160,9 +160,13 @@ func shapePath(class string, k int) string {
 		return "Wé1/\xff\x00"
 	case "two-slashes":
 		return "W1/a0/b"
+	case "fresh-acct":
+		return fmt.Sprintf("W1/a%d.*|n%d", k, atomic.AddInt64(&freshPath, 1))
 	}
 	return class
 }
+
+var freshPath int64
 
 type idSetter func(acct string, key []byte)
 
@@ -553,6 +557,10 @@ func (a *APIServer) RunStorm(ctx context.Context, msgs []FuzzMsg, workers, gener
 				if w%2 == 0 || len(msgs) == 0 {
 					m = FuzzMsg{ID: fmt.Sprintf("s%d_%d", w, i), Method: "Sign", Cred: []string{"valid-c2", "valid-c1"}[(w/2)%2], Seed: int64(w*1000003 + i),
 						Shape: map[string]any{"id": []string{"key-created", "acct-created"}[i%2], "domain": "randao", "data": "len32"}}
+				} else if w%4 == 3 {
+					// listings whose account expressions the daemon has never seen (as the signing streams address accounts it has only just created)
+					m = FuzzMsg{ID: fmt.Sprintf("l%d_%d", w, i), Method: "List", Cred: []string{"valid-c1", "valid-c2"}[(w/4)%2], Seed: int64(w*1000003 + i),
+						Shape: map[string]any{"count": []string{"1", "2", "17"}[i%3], "path": "fresh-acct", "mix": "distinct"}}
 				} else {
 					m = msgs[(w*7919+i)%len(msgs)]
 					m.ID = fmt.Sprintf("%s_w%d_%d", m.ID, w, i)
